@@ -154,8 +154,19 @@ def handle (sess0 : Sess) (rep : Report) (ln : Nat) (toks : List String) (obs : 
           let (t1, retsB1) := runCall s 3 cb []
           let (t2, retsB2) := runCall t1 0 ca retsB1
           let mine := summary s2 rets2
+          -- … and the caller that created the stream delegates its own call only after it has released the
+          -- stream's mutex: the other caller's call may reach the underlying stream first (same final state
+          -- but for the order of the two entries in the stream's log)
+          let swapCallers (s' : St) : St :=
+            let old := s'.log.take s.log.length
+            let new := s'.log.drop s.log.length      -- what this operation appended
+            match new.find? (fun p => p.1 == 0), new.find? (fun p => p.1 == 3) with
+            | some x, some y => { s' with log := old ++ new.map fun p => if p.1 == 0 then y else if p.1 == 3 then x else p }
+            | _, _ => s'
           if mine == obs then (some s2, rep)
           else if summary t2 retsB2 == obs then (some t2, rep.bump "st.second_caller_went_first")
+          else if summary (swapCallers s2) rets2 == obs then (some (swapCallers s2), rep.bump "st.creator_delegated_after_the_other_caller")
+          else if summary (swapCallers t2) retsB2 == obs then (some (swapCallers t2), rep.bump "st.creator_delegated_after_the_other_caller")
           else (none, { rep.msg s!"DIVERGE line={ln} model={mine} impl={obs}" with diverged := rep.diverged + 1 })
         | _, _ => (sess, rep.msg s!"BAD line={ln}")) hist
     else
